@@ -29,6 +29,20 @@ case "$1" in
     git -C "$ST/repo" reset -q --hard
     echo "exit=$rc violations=$(grep -c '^VIOLATION' "$ST/out.txt")"
     grep -E "^ +[0-9]+ x " "$ST/out.txt" | head -8 | cut -c1-260 ;;
+  try17)
+    # C17 needs both engines: the schedule explorer (zys) and the LSP protocol part of zyv
+    patch=$2; tier=${3:-quick}
+    git -C "$ST/repo" reset -q --hard
+    git -C "$ST/repo" apply "$patch" || { echo "patch does not apply"; exit 2; }
+    sync_engine
+    rsync -a --delete --exclude target /verif/sched "$ST/"
+    grep -rl "/repo/" "$ST/sched/zys/Cargo.toml" | xargs -r sed -i "s|/repo/|$ST/repo/|g"
+    (cd "$ST/sched" && CARGO_TARGET_DIR="$ST/target-sched" cargo build --offline > "$ST/build17.log" 2>&1) || { echo "sched build failed"; tail -20 "$ST/build17.log"; git -C "$ST/repo" reset -q --hard; exit 2; }
+    (cd "$ST/engine" && CARGO_TARGET_DIR="$ST/target" cargo build --offline > "$ST/build.log" 2>&1) || { echo "build failed"; tail -20 "$ST/build.log"; git -C "$ST/repo" reset -q --hard; exit 2; }
+    (cd "$ST/v" && "$ST/target-sched/debug/zys" check "$tier" > "$ST/out.txt" 2>&1; echo "zys exit=$?" >> "$ST/out.txt"; "$ST/target/debug/zyv" check C17 "$tier" >> "$ST/out.txt" 2>&1; echo "zyv exit=$?" >> "$ST/out.txt")
+    git -C "$ST/repo" reset -q --hard
+    echo "violations=$(grep -c '^VIOLATION' "$ST/out.txt")"; grep "exit=" "$ST/out.txt"
+    grep -E "^ +[0-9]+ x |findings" "$ST/out.txt" | head -12 | cut -c1-260 ;;
   done)
     git -C /repo worktree remove --force "$ST/repo"; git -C /repo worktree prune; rm -rf "$ST" ;;
 esac
